@@ -96,6 +96,14 @@ func runC19(rc *RunCtx) {
 		sc.Chunks[len(sc.Chunks)-1].N += len(extra)
 	}
 	sc.Hooks = true
+	if flavour == 0 && sc.Then == nil && !sc.LongSilence && totalGap(sc.Chunks) == 0 && len(sc.Chunks) <= 20 && t.Chance(1, 6) {
+		// hooks that take their time (a logger writing to a slow sink): 0.6-2 ms per call, far less in total than the
+		// read timeout - the reply is all there, the call must still bring it
+		sc.HookDelay = time.Duration(600+t.Choose(1400)) * time.Microsecond
+		if sc.ReadTimeout < 200*time.Millisecond {
+			sc.ReadTimeout = 200 * time.Millisecond
+		}
+	}
 	sc.ObserveParse = sc.Kind != KSerial && t.Choose(2) == 0 // otherwise the client comes from the protocol's own constructor
 	sc.WrappedTimeouts = t.Choose(2) == 1
 	sc.DeadlinePort = sc.Kind == KSerial && !sc.Flusher && t.Choose(2) == 1
@@ -108,7 +116,7 @@ func runC19(rc *RunCtx) {
 		n.DeadlinePort = sc.DeadlinePort
 	}
 	var hist []*C1
-	if sc.Then == nil && (sc.Fault == FNone || sc.Fault == FStall || sc.Fault == FEOF || sc.Fault == FIOErr || sc.Fault == FOversize) && t.Chance(1, 120) {
+	if sc.Then == nil && sc.HookDelay == 0 && (sc.Fault == FNone || sc.Fault == FStall || sc.Fault == FEOF || sc.Fault == FIOErr || sc.Fault == FOversize) && t.Chance(1, 120) {
 		// the exchange under test comes after a long history of exchanges on the same hooked client; every one of them
 		// is held to the same obligations
 		hist = genHistoryFrag(rc, sc, historyLen(t), false, true)
@@ -278,6 +286,9 @@ func checkC19Call(rc *RunCtx, sc *C1, withHooks, without *C1Outcome, idx int) {
 	// --- hooks must not change the outcome ---
 	if a, b := outcomeString(withHooks), outcomeString(without); a != b {
 		rc.Violate("hook_changes_outcome", base+"|what=result", "with hooks: %s; without: %s", a, b)
+	}
+	if sc.HookDelay > 0 {
+		return // hooks that take time shift when the transport is polled: only the result is comparable
 	}
 	if a, b := recString(withHooks.Rec), recString(without.Rec); a != b {
 		rc.Violate("hook_changes_outcome", base+"|what=transport_calls", "transport-visible call sequence differs with and without hooks")
